@@ -1,5 +1,6 @@
 import HkModel.Drive.Json
 import HkModel.Model.Queue
+import HkModel.Model.Counters
 import HkModel.Obs.Queue
 /-! Line-protocol driver for the queue correspondence (modes `queue`). -/
 namespace Hk.DriveQueue
@@ -204,10 +205,19 @@ def processLine (ds : DState) (line : String) : DState × List String :=
               | some (_, want), some m => if m.attempt == 1 && now < want then some s!"scheduled-message-offered-before-its-time id={p.1} asked={want - now}ns-later" else none
               | _, _ => none
           | _ => []
-        let propMsgs := propMsgs0 ++ early.flatMap (fun _ => ["C03", "C05"])
+        -- SQLite: the trigger-maintained counters the admission test reads must be the counts of the snapshot
+        -- (`Props/Counters.lean: counters_track` evaluated on the implementation's own record)
+        let drift : List String :=
+          if !(has j "ctr") || (obj j "ctr").isNull then [] else
+          let c := (arr j "ctr").map (fun (x : Json) => (x.getInt?.toOption.getD (-1)))
+          let sts := after.map (fun (m : Msg) => m.st.toString)
+          let want : List Int := [(Counters.countsOf sts "queued" : Int), (Counters.countsOf sts "leased" : Int)]
+          if c == want then [] else [s!"sqlite-depth-counters-differ-from-row-counts counters={c} rows={want}"]
+        let propMsgs := propMsgs0 ++ early.flatMap (fun _ => ["C03", "C05"]) ++ drift.flatMap (fun _ => ["C02", "C12"])
         let sched' := (sched1 ++ asked).filter (fun p => after.any (·.id == p.1))
         let propOut := propMsgs0.map (fun m => s!"PROP {m} {tag}") ++
-          early.flatMap (fun e => [s!"PROP C03 {tag} {e}", s!"PROP C05 {tag} {e}"])
+          early.flatMap (fun e => [s!"PROP C03 {tag} {e}", s!"PROP C05 {tag} {e}"]) ++
+          drift.flatMap (fun e => [s!"PROP C02 {tag} {e}", s!"PROP C12 {tag} {e}"])
         let ds := { ds with stepNo := n + 1, steps := ds.steps + 1, hist := hist', sched := sched', propFails := ds.propFails + propMsgs.length,
                             kinds := bump (opKind op ++ "/" ++ respKind resp) ds.kinds }
         match step ds.cfg now ds.q op ch with
